@@ -85,7 +85,7 @@ def parseEntry (tok : String) : Option (PEntry String String) :=
 /-- the incremental API driven like the harness drives the real one: header, start, one event per call
     while `bytes_read < raw_len`, then what `read` does after its loop -/
 partial def incLoop (rawLen : Nat) (ps : ParseState) (bs : Bytes) (acc : List String) : Res (List String × ParseState × Bytes) :=
-  if ps.bytesRead < rawLen then
+  if rawLen = 0 ∨ ps.bytesRead < rawLen then   -- (raw length 0: up to Game End, as `read` does)
     match parseEvent ps bs with
     | .ok ((code, ps'), rest) =>
       let acc := acc ++ [s!"{ps'.st.frames.id.length}:{ps'.bytesRead}"]
